@@ -342,6 +342,25 @@ theorem sc_deliver_queued_data_raise_in_close (fuel : Nat) (kd : PKind) (pr : Na
       by simp [get_set, get_filter_ne, get_filter_ne2, *], by simp [get_set, get_filter_ne, get_filter_ne2, *],
       Or.inl (by simp [get_set, get_filter_ne, get_filter_ne2, *])⟩
 
+/-- the IProducer / IConsumer methods of the transport: one call each into the Manager with the subchannel itself as the
+    argument (what happens there is C15's subject: `WV.Props.PyIRC15`) -/
+theorem sc_flow_forwarders (fuel : Nat) (kd : PKind) (pr : Nat → Nat) (h : Store) (mg : Nat)
+    (hmg : h.get "_manager" = some (.ref "Manager" mg)) (prod strm : Val) :
+    (let out := exec (fuel + 1) (envS kd pr) tbl_SubChannel "stopProducing" [] h
+     out.exc = none ∧ out.heap = h ∧ out.calls = [⟨"_manager", "subchannel_stopProducing", [.obj "self" []]⟩]) ∧
+    (let out := exec (fuel + 1) (envS kd pr) tbl_SubChannel "pauseProducing" [] h
+     out.exc = none ∧ out.heap = h ∧ out.calls = [⟨"_manager", "subchannel_pauseProducing", [.obj "self" []]⟩]) ∧
+    (let out := exec (fuel + 1) (envS kd pr) tbl_SubChannel "resumeProducing" [] h
+     out.exc = none ∧ out.heap = h ∧ out.calls = [⟨"_manager", "subchannel_resumeProducing", [.obj "self" []]⟩]) ∧
+    (let out := exec (fuel + 1) (envS kd pr) tbl_SubChannel "unregisterProducer" [] h
+     out.exc = none ∧ out.heap = h ∧ out.calls = [⟨"_manager", "subchannel_unregisterProducer", [.obj "self" []]⟩]) ∧
+    (let out := exec (fuel + 1) (envS kd pr) tbl_SubChannel "registerProducer" [prod, strm] h
+     out.exc = none ∧ out.heap = h ∧
+       out.calls = [⟨"_manager", "subchannel_registerProducer", [.obj "self" [], prod, strm]⟩]) := by
+  refine ⟨?_, ?_, ?_, ?_, ?_⟩ <;>
+    dil_eval [tbl_SubChannel, envS, hmg, m_SubChannel_stopProducing, m_SubChannel_pauseProducing,
+      m_SubChannel_resumeProducing, m_SubChannel_unregisterProducer, m_SubChannel_registerProducer]
+
 /-! ## SubchannelDemultiplex -/
 
 macro "dmx_eval" "[" ts:Lean.Parser.Tactic.simpLemma,* "]" : tactic =>
@@ -366,6 +385,24 @@ theorem demux_connect (fuel : Nat) (kd : PKind) (pr : Nat → Nat) (h : Store) (
     let out := exec (fuel + 1) (envS kd pr) tbl_SubchannelDemultiplex "_connect" [encFac fid name k, encScRef u, encAddr name] h
     out.exc = none ∧ out.heap = h ∧ out.calls = connectCalls (encFac fid name k) name u (.ref (kindCls kd) (pr 0)) := by
   dmx_eval [m_SubchannelDemultiplex__connect]
+
+/-- … and when the j-th of them raises, the later ones are not made (`_set_protocol` failing: no `makeConnection`, no
+    delivery; `makeConnection` failing: no delivery) — the model's `andThen` chain in `connectSC` -/
+theorem demux_connect_raises (fuel : Nat) (kd : PKind) (pr : Nat → Nat) (h : Store) (fid : String → Nat) (name : String)
+    (k : PKind) (u : Nat) (c : String) :
+    (let out := exec (fuel + 1) (envSR kd pr 0 c) tbl_SubchannelDemultiplex "_connect" [encFac fid name k, encScRef u, encAddr name] h
+     out.exc = some c ∧ out.heap = h ∧
+       out.calls = (connectCalls (encFac fid name k) name u (.ref (kindCls kd) (pr 0))).take 1) ∧
+    (let out := exec (fuel + 1) (envSR kd pr 1 c) tbl_SubchannelDemultiplex "_connect" [encFac fid name k, encScRef u, encAddr name] h
+     out.exc = some c ∧ out.heap = h ∧
+       out.calls = (connectCalls (encFac fid name k) name u (.ref (kindCls kd) (pr 0))).take 2) ∧
+    (let out := exec (fuel + 1) (envSR kd pr 2 c) tbl_SubchannelDemultiplex "_connect" [encFac fid name k, encScRef u, encAddr name] h
+     out.exc = some c ∧ out.heap = h ∧
+       out.calls = (connectCalls (encFac fid name k) name u (.ref (kindCls kd) (pr 0))).take 3) ∧
+    (let out := exec (fuel + 1) (envSR kd pr 3 c) tbl_SubchannelDemultiplex "_connect" [encFac fid name k, encScRef u, encAddr name] h
+     out.exc = some c ∧ out.heap = h ∧
+       out.calls = connectCalls (encFac fid name k) name u (.ref (kindCls kd) (pr 0))) := by
+  refine ⟨?_, ?_, ?_, ?_⟩ <;> dmx_eval [m_SubchannelDemultiplex__connect, envSR]
 
 /-- the model's `connectSC` is the model's meaning of those four calls, when the protocol `buildProtocol` returns is the
     one the model numbers next and has the factory's kind -/
